@@ -13,6 +13,7 @@ import (
 	"crypto/sha256"
 	"encoding/binary"
 	"fmt"
+	"runtime"
 	"strings"
 	"time"
 
@@ -121,6 +122,14 @@ func runC12Auth(in sx.V, c12AuthD time.Duration) (result sx.V, slow bool) {
 		}
 		answered := false
 		if c12Wait(5*time.Second, func() bool { return nq() > before || returned() }) && nq() > before && answer {
+			srv.mu.Lock()
+			lk := srv.last.k
+			srv.mu.Unlock()
+			if fc, _ := srv.lns[lk].current(); fc != nil && fc.mute {
+				answer = false // the server of this connection has fallen silent
+			}
+		}
+		if answer && nq() > before {
 			answered = true
 			srv.mu.Lock()
 			q, raw := srv.last, srv.lastRaw
@@ -181,6 +190,65 @@ func runC12Auth(in sx.V, c12AuthD time.Duration) (result sx.V, slow bool) {
 			srv.drop(k, a.List[2].I() == 1)
 			healthy[k] = false
 			time.Sleep(2 * time.Millisecond)
+		case "blackhole":
+			// connection k is reset; its reconnect falls into a hole: 1 TCP accept only,
+			// 2 ten bytes of the handshake answer, 3 handshake answered, then silence
+			k, ph := a.List[1].I(), a.List[2].I()
+			srv.lns[k].hs.Store(int32(ph))
+			srv.drop(k, true)
+			healthy[k] = false
+			time.Sleep(2 * time.Millisecond)
+			started := false
+			for tries := 0; tries < 6*nconn+6; tries++ {
+				if o := call(0, true); o.IsA("err") {
+					started = true
+					break
+				} else if o.IsA("hang") {
+					break
+				}
+			}
+			if !started {
+				outs = append(outs, sx.A("no-send-error"))
+			} else if ph == 3 {
+				// the handshake succeeds: Connected, to a server that never says anything
+				c12Wait(5*time.Second, func() bool {
+					_, g := srv.lns[k].current()
+					if g <= gens[k] {
+						return false
+					}
+					st, answered := c12Status(conns[k])
+					return answered && st == liteclient.Connected
+				})
+				_, gens[k] = srv.lns[k].current()
+			}
+		case "probe":
+			g0 := runtime.NumGoroutine()
+			o := call(0, true)
+			outs = append(outs, o)
+			if g1 := runtime.NumGoroutine(); g1 > g0+2 {
+				outs = append(outs, sx.A("goroutine-growth"))
+			}
+		case "dialhole":
+			ln := srv.lns[0]
+			ln.hs.Store(int32(a.List[1].I()))
+			ctx, cancel := context.WithTimeout(context.Background(), 400*time.Millisecond)
+			done := make(chan error, 1)
+			go func() {
+				_, err := liteclient.NewConnection(ctx, srv.pub, ln.ln.Addr().String())
+				done <- err
+			}()
+			select {
+			case err := <-done:
+				if err != nil {
+					outs = append(outs, sx.A("err"))
+				} else {
+					outs = append(outs, sx.A("connected"))
+				}
+			case <-time.After(400*time.Millisecond + c12Hang):
+				outs = append(outs, sx.A("hang"))
+			}
+			cancel()
+			ln.hs.Store(0)
 		case "recover":
 			res := sx.A("up")
 			for tries := 0; !allHealthy(); tries++ {
@@ -255,6 +323,17 @@ func c12GenAuth(r *prng.R, n int) sx.V {
 	}
 	if r.Chance(50) {
 		acts = append(acts, c12Op("silent"))
+	}
+	if !auth || n%4 == 1 {
+		// a keyless client ends in a black hole: the calls issued meanwhile
+		auth = false
+		if r.Chance(50) {
+			acts = append(acts, c12Op("dialhole", uint64(1+r.Intn(2))))
+		}
+		acts = append(acts, c12Op("blackhole", uint64(r.Intn(nconn)), uint64(1+r.Intn(3))))
+		for k := 3 + r.Intn(2*nconn+2); k > 0; k-- {
+			acts = append(acts, c12Op("probe"))
+		}
 	}
 	a := uint64(0)
 	if auth {
